@@ -19,6 +19,9 @@ for S in $seeds; do
   P=${S%-*}
   props="$P"
   [ "$S" = "C11-2" ] && props="C11 C16"
+  [ "$S" = "C13-3" ] && props="C13 C16"
+  [ "$S" = "C13-4" ] && props="C13 C17"
+  [ "$S" = "C16-2" ] && props="C16 C03 C08"
   git -C $SR apply /verif/seeded/$S/patch.diff || { echo "$S: patch does not apply"; continue; }
   res=""
   for Q in $props; do
